@@ -90,7 +90,7 @@ def extra_lazy_probe(tier, seed):
     first poll."""
     bins = vlib.build_harness((), bins=("director", "lazy_probe"))
     real = probe([bins["lazy_probe"]], 300).strip().splitlines()
-    want = "unpolled=[] deferred=[2, 1] raced=[8] oks=111"
+    want = "unpolled=[] deferred=[2, 1] raced=[8] oks=111 late=1"
     viol = []
     bad = [l for l in real if l.split(" ", 1)[1] != want]
     if bad or len(real) != 8:
@@ -195,6 +195,28 @@ def extra_chan_probe(tier, seed):
                                                chan_scripts_ending_with_a_stranded_message=stranded))
 
 
+def extra_sync_block(tier, seed):
+    """C02 / C09 / C17: the blocking API while the runtime's only thread is busy in a synchronous
+    handler (a schedule the director cannot produce): a spawn_blocking thread issues three sends one
+    after the other through every sequence of five blocking routes (blocking_tell with / without
+    timeout, the deprecated alias, the erased handler, blocking_ask) into a mailbox of capacity 1
+    and 2 - 250 scenarios.  Every send must return Ok (it waits for its slot) and the handled order
+    must be the program order."""
+    bins = vlib.build_harness((), bins=("director", "sync_block_probe"))
+    reps = 1 if tier == "quick" else 4
+    viol, n = [], 0
+    for _ in range(reps):
+        out = probe([bins["sync_block_probe"]], 600).strip().splitlines()
+        n += len(out)
+        bad = [l for l in out if not l.endswith("results=ok,ok,ok handled=[0, 1, 2, 3]")]
+        if bad or len(out) != 250:
+            viol.append(dict(what="a blocking send failed instead of waiting, or sends of one thread through different blocking routes were handled out of program order",
+                             real=bad[:3] or ["%d scenario lines instead of 250" % len(out)],
+                             expected="cap=<c> routes=<r> results=ok,ok,ok handled=[0, 1, 2, 3]", replay_cmd="sync_block_probe"))
+            break
+    return dict(violations=viol, coverage=dict(sync_block_scenarios=n))
+
+
 def extra_id_stress(tier, seed):
     """C11: ids handed out by concurrent spawns from many OS threads (fresh process): the model's
     id_of_index says the n-th spawn gets id n, so n spawns give exactly 1..n, all distinct; every
@@ -210,6 +232,15 @@ def extra_id_stress(tier, seed):
         if out != want:
             viol.append(dict(what="ids of concurrent spawns are not exactly 1..n / a derived handle changed its id",
                              input="id_stress %d %d" % (th, per), real=out, model=want))
+    # ... and while other threads keep making spawns that panic after the id was taken (C12)
+    for th, per, fl in ([(8, 2000, 4)] if tier == "quick" else [(8, 20000, 4), (16, 5000, 8)]):
+        out = probe([bins["id_stress"], str(th), str(per), str(fl)], 900).strip()
+        n = th * per
+        want = "spawned=%d distinct=%d unstable=0 failing_spawns_panicked=true" % (n, n)
+        rows.append(dict(threads=th, per_thread=per, failing_threads=fl, real=out))
+        if out != want:
+            viol.append(dict(what="ids of concurrent spawns are not distinct while other spawns fail",
+                             input="id_stress %d %d %d" % (th, per, fl), real=out, expected=want))
     return dict(violations=viol, coverage=dict(id_stress_runs=rows))
 
 
@@ -440,9 +471,9 @@ PROPS = {
     ),
     "C02": dict(
         props_file="Props/C02.v",
-        families=[("core", NONE, 150), ("time", NONE, 100), ("exh", NONE, 3)],
+        families=[("core", NONE, 150), ("time", NONE, 100), ("exh", NONE, 3), ("block", NONE, 25)],
         projection="C02", monitors=["C02"],
-        extra=[extra_mt_stress, extra_chan_probe],
+        extra=[extra_mt_stress, extra_chan_probe, extra_sync_block],
     ),
     "C03": dict(
         props_file="Props/C03.v",
@@ -453,7 +484,7 @@ PROPS = {
     ),
     "C07": dict(
         props_file="Props/C07.v",
-        families=[("core", NONE, 250), ("hostile", NONE, 50), ("exh", NONE, 3)],
+        families=[("core", NONE, 250), ("hostile", NONE, 50), ("exh", NONE, 3), ("endings", NONE, 1)],
         projection="C07", monitors=["C07"],
         level_note="Causes of ending, no spontaneous ending and reference accounting are proved; 'eventually ends' is proved as a ranking argument (the rank never rises, every enabled step of the actor lowers it or enters on_stop, a step is enabled unless the hook is blocked); that an enabled step is eventually taken is the fairness of the tokio scheduler (a woken task is eventually polled), which is outside the model (partial).",
     ),
@@ -467,19 +498,19 @@ PROPS = {
         props_file="Props/C12.v",
         families=[("multi", NONE, 150), ("multi", ("dd",), 150), ("fault", NONE, 100)],
         projection="C12", monitors=["C03", "C04", "C05", "C11", "C12"],
-        extra=[extra_dd_probe, extra_mt_stress_feat],
+        extra=[extra_dd_probe, extra_mt_stress_feat, extra_id_stress],
     ),
     "C08": dict(
         props_file="Props/C08.v",
-        families=[("core", NONE, 200), ("fault", NONE, 100), ("exh", NONE, 3)],
+        families=[("core", NONE, 200), ("fault", NONE, 100), ("exh", NONE, 3), ("endings", NONE, 1)],
         projection="C08", monitors=["C08"],
         level_note="The order theorem is about the mailbox as polled in the same pass; a message arriving between the mailbox poll and the on_run poll of one pass on a multi-thread runtime is outside the model (partial). Trusted base as for the other checks.",
     ),
     "C09": dict(
         props_file="Props/C09.v",
-        families=[("core", NONE, 150), ("time", NONE, 100), ("hostile", NONE, 50), ("exh", NONE, 3)],
+        families=[("core", NONE, 150), ("time", NONE, 100), ("hostile", NONE, 50), ("exh", NONE, 3), ("block", NONE, 25)],
         projection="C09", monitors=["C09"],
-        extra=[extra_config_probe, extra_chan_probe],
+        extra=[extra_config_probe, extra_chan_probe, extra_sync_block],
     ),
     "C10": dict(
         props_file="Props/C10.v",
@@ -489,7 +520,8 @@ PROPS = {
     ),
     "C13": dict(
         props_file="Props/C13.v",
-        families=[("time", ("testutils",), 150), ("fault", ("testutils",), 100), ("core", NONE, 50), ("block", NONE, 25)],
+        families=[("time", ("testutils",), 150), ("fault", ("testutils",), 100), ("core", NONE, 50), ("block", NONE, 25),
+                  ("time:erased", ("testutils",), 100), ("fault:erased", ("testutils",), 50)],
         projection="C13", monitors=["C13"],
         extra=[extra_mt_stress_feat],
     ),
@@ -520,7 +552,8 @@ PROPS = {
         props_file="Props/C17.v",
         families=[("block", NONE, 40), ("core", NONE, 30)],
         thorough_scale=8,
-        projection="full", monitors=["C01", "C02", "C03", "C10", "C13"],
+        projection="full", monitors=["C01", "C02", "C03", "C09", "C10", "C13"],
+        extra=[extra_sync_block],
         level_text="Proof (model) + bounded observation on real threads: blocking and deprecated calls are desugared to the same operation futures (theorems of C01-C03, C09, C10, C13 quantify over the send path); real rsactor is driven on a multi-thread runtime with std threads / spawn_blocking / calls inside the runtime, wall-clock ticks of 800 ms, and every round is accepted by the model (results, order, dead-letter labels, which calls are still blocked).",
         level_note="Partial: thread blocking, the helper thread and its private runtime, and wall-clock bounds are runtime behaviour the model cannot exhibit; they are checked by observation with margins (a mismatching real-time script is re-run twice before it counts).",
     ),
@@ -547,19 +580,19 @@ PROPS = {
     ),
     "C04": dict(
         props_file="Props/C04.v",
-        families=[("core", NONE, 150), ("fault", NONE, 150), ("exh", NONE, 3)],
+        families=[("core", NONE, 150), ("fault", NONE, 150), ("exh", NONE, 3), ("endings", NONE, 1)],
         projection="C04", monitors=["C04", "C06"],
         extra=[extra_mt_stress],
     ),
     "C05": dict(
         props_file="Props/C05.v",
-        families=[("core", NONE, 150), ("fault", NONE, 150), ("exh", NONE, 3)],
+        families=[("core", NONE, 150), ("fault", NONE, 150), ("exh", NONE, 3), ("endings", NONE, 1)],
         projection="C05", monitors=["C05"],
         extra=[extra_result_table, extra_mt_stress],
     ),
     "C06": dict(
         props_file="Props/C06.v",
-        families=[("core", NONE, 150), ("fault", NONE, 100), ("hostile", NONE, 50), ("exh", NONE, 3)],
+        families=[("core", NONE, 150), ("fault", NONE, 100), ("hostile", NONE, 50), ("exh", NONE, 3), ("endings", NONE, 1)],
         projection="C06", monitors=["C06", "C04"],
     ),
 }
